@@ -199,8 +199,10 @@ class Observation:
         {'pipeline.charge_transfer.cdm.arguments.beta': <ParameterType.Multi: 'multi'>,
          'pipeline.charge_transfer.cdm.arguments.trap_densities': <ParameterType.Multi: 'multi'>}
         """
-        for step in self.parameter_mode.enabled_steps:
-            self.parameter_types.update({step.key: step.type})
+        # Only the steps enabled now: keys of an earlier run must not be kept
+        self.parameter_types = {
+            step.key: step.type for step in self.parameter_mode.enabled_steps
+        }
         return self.parameter_types
 
     def validate_steps(self, processor: Processor) -> None:
